@@ -292,8 +292,13 @@ Definition round_half_even (n d : Z) : Z :=      (* n >= 0, d > 0 : n/d rounded,
   if 2 * r <? d then q else if d <? 2 * r then q + 1 else if Z.even q then q else q + 1.
 Definition pixel_idx_nearest (p c0 s : Z) : Z := round_half_even (Z.abs (p - c0)) (Z.abs s).
 Definition pixel_idx_trunc (p c0 s : Z) : Z := Z.abs (p - c0) / Z.abs s.
+(* signed variant: sign * (p - c0) with sign = -1 for descending centres; np.rint is symmetric *)
+Definition round_half_even_signed (n d : Z) : Z :=
+  if n <? 0 then - round_half_even (- n) d else round_half_even n d.
+Definition pixel_idx_signed (p c0 s : Z) : Z := round_half_even_signed ((p - c0) * Z.sgn s) (Z.abs s).
 Definition pixel_idx (p c0 s : Z) : Z :=
-  if pixel_round_nearest then pixel_idx_nearest p c0 s else pixel_idx_trunc p c0 s.
+  if pixel_round_nearest then (if pixel_signed then pixel_idx_signed p c0 s else pixel_idx_nearest p c0 s)
+  else pixel_idx_trunc p c0 s.
 
 (* ------------------------------------------------------------------ *)
 (* PrimFloat instance (what the code computes) *)
@@ -330,12 +335,15 @@ Module F.
     let n := lenZ coords in
     if (n =? 1)%Z then None else Some ((fmax coords - fmin coords) / z2f (n - 1)).
 
-  (* _get_pixel_id for one axis: int(np.rint(abs(p - coords[0]) / cellsize)); None = raised *)
+  (* _get_pixel_id for one axis: int(np.rint(sign * (p - coords[0]) / cellsize)) with sign = -1 if
+     coords[-1] < coords[0] else 1  (or abs(p - coords[0]) in the older form); None = raised *)
   Definition pixel_axis (coords : list float) (res : option float) (p : float) : option Z :=
     match (match res with Some r => Some r | None => calc_res coords end) with
     | None => None
     | Some cs =>
-      let q := abs (p - hd 0 coords) / cs in
+      let d := p - hd 0 coords in
+      let num := if pixel_signed then (if ltb (last coords 0) (hd 0 coords) then - d else d) else abs d in
+      let q := num / cs in
       if ltb (abs q) infinity then Some (to_index q) else None
     end.
 
